@@ -12,9 +12,9 @@ func init() {
 	}
 	outside := []string{"more allocations than the bound; more than two distinct allocated addresses (plus one never allocated)", "the MorpheusVM balance handler (other module; same AddBalance logic)", "JSON loading of the genesis file, StateBranchFactor"}
 	register(PropSpec{ID: "C27", Harnesses: []HarnessSpec{
-		{Name: "genesis", Pkg: "genesis", Files: files, Entry: "VerifC27Genesis", QueryMs: [2]int{60000, 60000}, Reach: []string{"overflow-rejected", "several-allocations"},
+		{Name: "genesis", Pkg: "genesis", Files: files, Entry: "VerifC27Genesis", QueryMs: [2]int{120000, 120000}, Reach: []string{"overflow-rejected", "several-allocations"},
 			Redirects: redirects, Stubs: stubs, Outside: outside},
-		{Name: "many", Pkg: "genesis", Files: files, Entry: "VerifC27Many", QueryMs: [2]int{60000, 60000}, Reach: []string{"several-allocations"},
+		{Name: "many", Pkg: "genesis", Files: files, Entry: "VerifC27Many", QueryMs: [2]int{120000, 120000}, Reach: []string{"several-allocations"},
 			Redirects: redirects, Stubs: stubs, Outside: append([]string{"balances of 2^60 and above in this harness (full range: harness genesis)"}, outside...)},
 	}})
 }
